@@ -75,6 +75,12 @@ def items(tier, seed):
     for i, c in enumerate(out):
         if i % 5 == 0 and c["t"] != "simple" and "pow" not in json.dumps(c) and not c.get("arr"):
             c["arr"] = ["numpy", "list", "tuple"][(i // 5) % 3]
+    for i, c in enumerate(out):
+        if i % 3 == 1:
+            c["prelude"] = True  # history: operations with a unit-less right operand come first (plain number, dimensionless Scalar, failing op)
+    for op in ("add", "sub"):
+        for kb in ("list", "tuple"):
+            out.append({"t": "aux_int_dtype", "A": ["leaf", "m", "length"], "B": ["leaf", "cm", "length"], "op": op, "kb": kb})
     out[0]["canary"] = True
     for c in out:
         if c["t"] == "area" and c["A"] != c["B"]:
@@ -85,14 +91,40 @@ def items(tier, seed):
 
 
 def inputs(cfg):
-    return {"x%d" % i: "real" for i in range(n_leaves(cfg["A"]) + n_leaves(cfg["B"]))}
+    return {"x%d" % i: "real" for i in range(max(n_leaves(cfg["A"]) + n_leaves(cfg["B"]), 1))}
 
 
 def _vq(o):
     return (first_value(o), qmap(o))
 
 
+def _prelude(V):
+    from barril.units import Array, Scalar, UnitsError
+
+    Array([1.0, 2.0], "m") * 2.0
+    Array((1.0,), "km") + 1.5
+    Scalar(3.0, "m") * Scalar.CreateEmptyScalar(2.0)
+    Scalar(3.0, "h") + Scalar.CreateEmptyScalar(2.0)
+    Array([1.0], "kg") / Array.CreateEmptyArray([2.0])
+    try:
+        Scalar(1.0, "m") + Scalar(1.0, "s")
+    except UnitsError:
+        pass
+
+
 def run(cfg, V):
+    if cfg["t"] == "aux_int_dtype":
+        import numpy
+        from barril.units import Array, Scalar
+
+        ia, fb = [1, 2, 3], [0.5, 1.25, 2.75]
+        A = Array(numpy.array(ia), "m")
+        B = Array(fb if cfg["kb"] == "list" else tuple(fb), "cm")
+        r = A + B if cfg["op"] == "add" else A - B
+        want = [(Scalar(float(a), "m") + Scalar(b, "cm")).GetValue() if cfg["op"] == "add" else (Scalar(float(a), "m") - Scalar(b, "cm")).GetValue() for a, b in zip(ia, fb)]
+        return {"aux": ([float(v) for v in r.GetValues()], [float(w) for w in want], r.GetUnit())}
+    if cfg.get("prelude"):
+        _prelude(V)
     ctr = [0]
     cls = leaf_class(cfg.get("arr"), bool(cfg.get("empty")))
     A = build(cfg["A"], V, ctr, cls)
@@ -115,6 +147,10 @@ def props(cfg, T, obs):
         if obs.isa(ZeroDivisionError):
             return []  # a zero divisor while BUILDING an operand: legitimate outcome, nothing to claim
         return [("dimension-compatible +/- does not raise", False)]
+    if cfg["t"] == "aux_int_dtype":
+        got, want, unit = obs["aux"]
+        return [("auxiliary, concrete (not solver-decided): integer-dtype ndarray +/- fractional list equals the Scalar results",
+                 unit == "m" and len(got) == 3 and all(abs(a - b) <= 1e-12 * (abs(a) + abs(b) + 1) for a, b in zip(got, want)))]
     if cfg["t"] == "simple":
         db = get_db("default")
         u, v = cfg["A"][1], cfg["B"][1]
@@ -147,4 +183,4 @@ def props(cfg, T, obs):
 
 def finding_key(cfg, name):
     return "%s %s %s%s%s :: %s" % (spec_str(cfg["A"]), "+" if cfg["op"] == "add" else "-", spec_str(cfg["B"]), " [Array.%s]" % cfg["arr"] if cfg.get("arr") else "",
-                                   " empty" if cfg.get("empty") else "", name)
+                                   (" empty" if cfg.get("empty") else "") + (" after unit-less prelude" if cfg.get("prelude") else ""), name)
